@@ -11,6 +11,7 @@ Python                                                   Lean
 `SimpleShuffle._layer`                                   `simpleShuffle`
 `TaskShuffle._layer` (stages, padding, final            `stageStep`, `taskShuffle`, `layerWiring`
    `shuffle_group_2` when npartitions changes)
+`DiskShuffle._layer` + `collect` (partd)                 `diskShuffle arrival` (pieces in arrival order), `orderedShuffle`
 `set_partitions_pre`                                     `setPartitionsPre` (searchsorted right − 1, clamping, NA)
 `partitioning_index`                                     `h % n` for an abstract hash `h`
 A row is `(target, id)`: `target` is the value of the `_partitions` column (what `AssignPartitioningIndex`
@@ -71,6 +72,17 @@ def taskShuffle (parts : List (List (Nat × α))) (nOut k stages : Nat) : List (
   else
     -- `shuffle_group_2` on the first `nIn` staged partitions, then `shuffle_group_get(group[p % nIn], p)`
     (List.range nOut).map fun p => (staged.getD (p % nIn) []).filter fun r => r.1 == p
+
+/-- an order-preserving shuffle written as a specification: output `p` = the rows with target `p` in input order
+    (what `task_shuffle_exact_valid` proves the task shuffles compute) -/
+def orderedShuffle (ps : List (List (Nat × α))) (n : Nat) : List (List (Nat × α)) :=
+  (List.range n).map fun p => ps.flatten.filter fun r => r.1 == p
+
+/-- `DiskShuffle._layer`: every input partition is split by `_partitions` (`groupby(col).get_group`, row order kept)
+    and appended to partd; `collect` returns, for output `p`, the pieces in the order the partitions were appended.
+    `arrival` is that order (a permutation of the input partition numbers, decided by the scheduler). -/
+def diskShuffle (arrival : List Nat) (parts : List (List (Nat × α))) (nOut : Nat) : List (List (Nat × α)) :=
+  orderedShuffle (arrival.map fun i => parts.getD i []) nOut
 
 /-- wiring of one stage as it appears in the graph: for every position the piece index and the
     `k` source tuples -/
